@@ -843,7 +843,13 @@ func (p *Path) next(fr *Frame, x *ssa.Next) Val {
 	} else {
 		if st.Pos >= len(st.Keys) {
 			tt := x.Type().(*types.Tuple)
-			return Tuple{smt.False, Zero(tt.At(1).Type()), Zero(tt.At(2).Type())}
+			z := func(t types.Type) Val {
+				if b, ok := t.(*types.Basic); ok && b.Kind() == types.Invalid {
+					return nil // component not used by the range statement
+				}
+				return Zero(t)
+			}
+			return Tuple{smt.False, z(tt.At(1).Type()), z(tt.At(2).Type())}
 		}
 		res = Tuple{smt.True, st.Keys[st.Pos], st.Vals[st.Pos]}
 		ns.Pos++
